@@ -59,6 +59,8 @@ def parse_vspec(path):
             mode[1]["macro_stubs"][mode[2]] = text.strip()
         elif kind == "item_attr":
             mode[1]["item_attrs"][mode[2]] = text.strip()
+        elif kind == "inject":
+            mode[1]["item_inject"][mode[2]] = mode[1]["item_inject"].get(mode[2], "") + text
         mode = None
         buf = []
 
@@ -83,7 +85,7 @@ def parse_vspec(path):
                 cur_src = {"file": os.path.join(REPO, args[0]), "rel": args[0], "keep": [], "drop": [],
                            "external": [], "contracts": {}, "vec_places": [], "hoists": [],
                            "strip_derives": [], "for_rewrite": [], "chain_hoists": [],
-                           "item_stubs": {}, "macro_stubs": {}, "item_attrs": {}, "ident_renames": {},
+                           "item_stubs": {}, "macro_stubs": {}, "item_attrs": {}, "ident_renames": {}, "item_inject": {},
                            "external_all": False, "verify": []}
                 unit["sources"].append(cur_src)
             elif d == "keep":
@@ -143,6 +145,8 @@ def parse_vspec(path):
                 mode = ("macro_stub", cur_src, rest)
             elif d == "item_attr":
                 mode = ("item_attr", cur_src, rest)
+            elif d == "inject":
+                mode = ("inject", cur_src, rest)
             elif d == "prelude":
                 mode = ("prelude",)
             elif d == "post":
@@ -270,6 +274,19 @@ def gen_unit(name, canary=False, outname=None):
         parts.append(h)
     parts.append(f"// ======== unit `{name}`: lemmas and drivers ========\n")
     parts.append(unit["post"])
+    # Verus allows one module-level `broadcast use` per module: merge them
+    body = "".join(parts)
+    names = []
+    def _grab(m):
+        for n in m.group(1).split(","):
+            n = n.strip()
+            if n and n not in names:
+                names.append(n)
+        return ""
+    body = re.sub(r"(?m)^broadcast use ([^;]*);[ \t]*$", _grab, body)
+    parts = [body]
+    if names:
+        parts.append("broadcast use " + ", ".join(names) + ";\n")
     parts.append(FOOTER)
     for k in ("log", "fns", "warnings", "errors", "items"):
         meta_all[k] += m[k]
